@@ -5,9 +5,9 @@
     of the graph the router is given; its fee clause uses [compute_fees] regenerated from
     router.rs by rs2v.  The path search of [get_route] is NOT modelled or proved: the check runs the
     verified [route_check] on every route the real [find_route] returns. *)
-Require Import LdkV.Prim.U64 LdkV.Prim.Rs2vLib LdkV.Gen.RouterFees.
+Require Import LdkV.Prim.U64 LdkV.Prim.Rs2vLib LdkV.Gen.RouterFees LdkV.Gen.RouterMpp.
 Require Import LdkV.Model.RouteSpec LdkV.Model.RouteWitness LdkV.Model.RouteRecompute.
-Require Import LdkV.Proofs.C16 LdkV.Proofs.C16Recompute.
+Require Import LdkV.Proofs.C16 LdkV.Proofs.C16Recompute LdkV.Proofs.C16Mpp.
 Open Scope Z_scope.
 
 (** The executable checker accepts exactly the valid routes: sound, and never a false alarm. *)
@@ -66,6 +66,52 @@ Theorem C16_recompute_pays_policy_refuted :
     List.map ph_fee hops' = (100000 :: 0 :: 2000000 :: nil)%list /\ c = 2000000.
 Proof. exact recompute_last_raise_underpays. Qed.
 
+(** The same for a raise at ANY position, in exact form: the final hop carries [value]; every other
+    hop carries the larger of its own [htlc_minimum_msat] and what has to be forwarded (the next
+    hop's amount plus the policy fee of the next channel for it), the surplus being left as fee
+    with the node in between — so the hops BEFORE a raised hop are computed for the raised amount
+    (in the Rust: [total_fee_paid_msat += extra_fees_msat]).  [Examples.midpath_raise]: five hops,
+    hop 2 raised from 1 006 505 to its minimum 3 000 000, proportional fees before and after. *)
+Theorem C16_recompute_exact : forall hops value hops' c,
+  recompute hops value = Some (hops', c) ->
+  Forall fees_nonneg hops -> 0 <= value -> last_hmin hops <= value ->
+  exact_policy value hops'.
+Proof. exact recompute_exact. Qed.
+
+(** ** The path-count clause
+    [get_route] only collects paths contributing at least [minimal_value_contribution_msat]
+    (regenerated from router.rs by rs2v, anchored at its [let]) and drops superfluous paths.  The
+    regenerated expression is the share rounded UP … *)
+Theorem C16_min_contribution_is_div_ceil : forall V N,
+  minimal_value_contribution_msat true V N = (V + N - 1) / N /\
+  minimal_value_contribution_msat false V N = V.
+Proof. exact min_contribution_div_ceil. Qed.
+
+(** … for which [max_path_count] paths always reach the value … *)
+Theorem C16_min_contribution_reaches_value : forall V N cs,
+  0 < N -> 0 <= V ->
+  Forall (fun c => minimal_value_contribution_msat true V N <= c) cs ->
+  N <= Z.of_nat (List.length cs) -> V <= sumz cs.
+Proof. exact min_contribution_reaches_value. Qed.
+
+(** … so that a route without a superfluous path (clause 5 of [route_valid]) made of such paths
+    has at most [max_path_count] paths (clause 1). *)
+Theorem C16_path_count_bound : forall V N cs,
+  0 < N -> 0 <= V ->
+  Forall (fun c => minimal_value_contribution_msat true V N <= c) cs ->
+  Forall (fun c => sumz cs - c < V) cs ->
+  Z.of_nat (List.length cs) <= N.
+Proof. exact path_count_bound. Qed.
+
+(** With the share rounded DOWN ([max (V / N) 1]) both statements are false: 10 msat, at most 3
+    paths, pieces of 3 — three pieces do not reach 10, four make a route without a superfluous path. *)
+Theorem C16_floor_contribution_refuted :
+  exists V N cs, 0 < N /\ 0 <= V /\
+    Forall (fun c => Z.max (V / N) 1 <= c) cs /\
+    Forall (fun c => sumz cs - c < V) cs /\ V <= sumz cs /\
+    N < Z.of_nat (List.length cs) /\ sumz (List.firstn (Z.to_nat N) cs) < V.
+Proof. exact floor_contribution_refuted. Qed.
+
 Theorem C16_pays_policy_decidable : forall hops, pays_policy_b hops = true <-> pays_policy hops.
 Proof. exact pays_policy_b_iff. Qed.
 
@@ -114,4 +160,13 @@ Module Examples.
     single_path_witness g (mkParams 0 3 1500000 1 None 1008 19 nil nil true) 42 =
     Some (mkPath (mkHop 11 1 500 18 :: mkHop 41 3 1500000 42 :: nil) None).
   Proof. vm_compute. reflexivity. Qed.
+
+  (* a raise in the middle of a path: fees, amounts, policy verdict, contribution *)
+  Example midpath_raise :
+    match recompute midbump_hops 1000000 with
+    | Some (hs, c) => (List.map ph_fee hs, amounts hs, pays_policy_b hs, c)
+    | None => (nil, nil, false, 0)
+    end = ((31600 :: 60000 :: 1999000 :: 1000 :: 1000000 :: nil)%list,
+           (3091600 :: 3060000 :: 3000000 :: 1001000 :: 1000000 :: nil)%list, true, 1000000).
+  Proof. exact midbump_example. Qed.
 End Examples.
